@@ -37,6 +37,9 @@ PAIRS = [
     ({"a": {"b": {"c": 1}}}, {"a": {"b": {"c": 2, "d": [1]}}}), ([[1, [2, [3]]]], [[1, [2, [4, 5]]]]), ([], [[1]]), ([[1]], []),
     ({"k": [1, 2, 3, 4]}, {"k": [4, 3, 2, 1]}), ([0, "", None], [None, "", 0]), ([[1, 2], [3, 4]], [[1, 2], [3, 4]]),
     ({"a": 1}, [1]), ([[[1]]], [[[2]]]), (["abc", "de"], ["abd", "e", "f"]), ({"x": ["ab"]}, {"x": ["ac", "ab"]}),
+    ({"k1": "the quick brown fox", "k2": "jumps over", "k3": [1, 2, 3]}, {"j1": "lazy dog again?", "j2": "jumps over it", "j3": [1, 2]}),
+    ({"a": "xxxxxxxx", "b": "yyyy", "c": [1]}, {"d": "yyyy", "e": "xxxxxxx", "f": [1, 2]}),
+    ([{"p": "abc", "q": "de"}, {"r": 1}], [{"s": "abd", "t": "e"}, {"r": 2, "u": 3}]),
 ]
 
 
@@ -112,7 +115,7 @@ def _drive(job):
             elif op == 'v':
                 _ = e.valid
             elif op == 'e':
-                if isinstance(e, CompoundEdit) and e.is_complete():
+                if isinstance(e, CompoundEdit):
                     list(e.edits())
             elif op == 'h':
                 e.has_non_zero_cost()
